@@ -83,6 +83,7 @@ type Rig struct {
 	FromAppErr   func(m *quickfix.Message) quickfix.MessageRejectError
 	FromAdminErr func(m *quickfix.Message) quickfix.MessageRejectError
 	InCallback   func(kind string)         // hook for schedule perturbation (C02)
+	VirtualNow   func() time.Time          // when set, the store's creation time lives on this clock (see SetVirtualClock)
 	EditAdmin    func(m *quickfix.Message) // the application edits an outgoing administrative message in ToAdmin
 	RecordSaves  bool                      // trace every completed outbound save ("store.Save") / number increment ("store.IncrSender")
 
@@ -146,12 +147,25 @@ func (r *Rig) WaitDrained() {
 
 type recStore struct {
 	quickfix.MessageStore
-	r *Rig
+	r        *Rig
+	vcreated time.Time // creation time on the virtual clock (when the rig has one)
+}
+
+// CreationTime is the store's own creation time, or - when the rig runs on a virtual clock -
+// the virtual instant of the last reset (the engine compares it with the "now" it is given).
+func (s *recStore) CreationTime() time.Time {
+	if s.r.VirtualNow != nil {
+		return s.vcreated
+	}
+	return s.MessageStore.CreationTime()
 }
 
 func (s *recStore) Reset() error {
 	prev := s.MessageStore.NextTargetMsgSeqNum()
 	err := s.MessageStore.Reset()
+	if s.r.VirtualNow != nil {
+		s.vcreated = s.r.VirtualNow()
+	}
 	s.r.add(Entry{Kind: "store.Reset", Prev: prev, Value: 1})
 	return err
 }
@@ -410,6 +424,13 @@ func (r *Rig) Close() {
 	delete(timerOwner, r.V.PeerTimer())
 	timerMu.Unlock()
 	r.V.Close()
+}
+
+// SetVirtualClock puts the store's creation time on a clock owned by the test: it is now() at
+// this moment and at every later reset.
+func (r *Rig) SetVirtualClock(now func() time.Time) {
+	r.VirtualNow = now
+	r.store.vcreated = now()
 }
 
 // Store returns the real store behind the recording wrapper.
